@@ -6,6 +6,7 @@ import (
 	"bytes"
 	"encoding/binary"
 	"fmt"
+	"sort"
 	"sync"
 	"time"
 
@@ -151,6 +152,7 @@ func (r *ReqRig) TxsOf(ctx, k int) []WireTx {
 			out = append(out, t)
 		}
 	}
+	sort.SliceStable(out, func(a, b int) bool { return out[a].T < out[b].T })
 	return out
 }
 
